@@ -4,15 +4,15 @@ CONSTANTS
   FunRels = {"actionnext", "beads", "xrefprev", "xrefstmprev", "xrefstm", "extends", "length", "refchain", "refcontents", "refkids", "refannots", "pageparent", "fieldparent", "colorspace", "function", "smask", "irt"}
   MaxN = 4
   SymN = 3
-  GraphMod = 128
+  GraphMod = 127
   Decors = {"none", "dangling", "wrong", "null", "direct"}
-  DecorMod = 8
-  FunMod = 24
+  DecorMod = 9
+  FunMod = 25
   OutTrees = {12, 13, 22, 23}
-  OutTreeMod = 16
+  OutTreeMod = 29
   OutlineNs = {1, 2}
   Outline1Mod = 1
-  OutlineMod = 16
+  OutlineMod = 17
   DepthRels = {"pagetree", "fields", "structtree", "nametree", "numtree", "xobjects", "actionnext", "beads", "xrefprev", "extends", "length", "refchain", "pageparent", "fieldparent", "colorspace", "function", "smask", "irt", "outlinefirst", "outlinenext"}
   SynKinds = {"array", "dict", "mixed", "parens", "contentarray", "contentq", "contentdict"}
   Limit = 100
@@ -23,7 +23,7 @@ CONSTANTS
   MutK = 60
   PdfBases = {"classic", "objstm", "encrypted", "signed", "form"}
   PdfK = 2
-  PdfMod = 6
+  PdfMod = 7
   TruncK = 40
   Seed = 1
   Emit = TRUE
